@@ -67,6 +67,24 @@ OPS = [
     ("plus_minus", r" \+ (?=[a-z(])", " - "), ("pluseq_minuseq", r" \+= ", " -= "),
     ("drop_sort", r"^(\s+)([\w.]+\.sort[\w]*\([^;]*\);)\s*$", r"\1"),
     ("drop_question_some", r"\.then\(\|\| ", ".then_some((|| "),
+    # third batch: the token templates (quote! / parse_quote!)
+    ("drop_quote_line", r"^\s+#(docs|variant_docs|codec_index|derives|marker|codec_skip)\s*$", ""),
+    ("drop_compact_attr", r"#compact_attr ", ""), ("drop_pub", r"\bpub (?=#|__ignore)", ""),
+    ("unbox", r"#alloc_path::boxed::Box<#ty_path>", "#ty_path"),
+    ("rename_marker", r"__ignore\b", "__ignored"), ("rename_marker_variant", r"__Ignore\b", "__Ignored"),
+    ("table_set_heap", r"collections::BTreeSet\)", "collections::BinaryHeap)"), ("table_heap_set", r"collections::BinaryHeap\)", "collections::BTreeSet)"),
+    ("table_deque", r"collections::VecDeque\)", "collections::LinkedList)"),
+    ("table_range", r"ops::RangeInclusive\)", "ops::Range)"), ("table_range2", r"ops::Range\)", "ops::RangeInclusive)"),
+    ("table_nonzero", r"num::NonZeroU(8|16|32|64)\)", lambda m: "num::NonZeroU" + {"8": "16", "16": "32", "32": "64", "64": "128"}[m.group(1)] + ")"),
+    ("table_option_result", r"option::Option\)", "result::Result)"),
+    ("table_bool_char", r"primitive::bool\)", "primitive::u8)"), ("table_char", r"primitive::char\)", "primitive::u32)"),
+    ("table_string", r"#alloc_crate_path::string::String\)", "#alloc_crate_path::vec::Vec<::core::primitive::u8>)"),
+    ("vec_path", r"#alloc_crate_path::vec::Vec<#of>", "#alloc_crate_path::collections::VecDeque<#of>"),
+    ("array_len", r"\[#of; #len\]", "[#of; 1usize]"),
+    ("bits_swap", r"<#bit_store_type, #bit_order_type>", "<#bit_order_type, #bit_store_type>"),
+    ("phantom_path", r"::core::marker::PhantomData<#params>", "::core::marker::PhantomData<()>"),
+    ("index_attr", r"codec\(index = #index\)", "codec(index = 0)"),
+    ("std_for_alloc", r"quote!\(::std\)", "quote!(::alloc)"),
 ]
 
 def candidate_lines(path):
